@@ -17,11 +17,14 @@ func init() {
 		sc.Real = []string{"IpfsDHT.GetClosestPeers", "query.go state machine incl. follow-up phase", "qpeerset", "lookup events", "kbucket routing table (refresh stamps)", "ProtocolMessenger"}
 		sc.Stub = []string{"host.Host/network (simhost)", "pb.MessageSender (level A)", "remote peers (scripted: full knowledge / k-bucket complete / random with faults)"}
 		sc.Faults = append([]string{"fault_dial_fail", "fault_rpc_error", "fault_cancel", "time_advance", "probe_term_completed", "probe_term_starvation", "probe_followup_ran", "probe_stamp_checked"}, c02BareFaults...)
+		sc.Faults = append(append(sc.Faults, c02WideFaults...), c02StaleFaults...)
 		return sc
 	}
 	mk := func(name, universe string, weight int) {
 		sim.Register(common(&sim.Scenario{Prop: "C02", Name: name, Weight: weight, Run: func(s *sim.Sim) {
 			c := genLookupCfg(s, universe)
+			// wide configurations (c02_wide.go): K beyond the small range
+			drawWideK(s, &c)
 			if universe == "random" {
 				c.FaultLevel = s.Draw("fault-level", 3)
 				if s.Chance("cancel", 1, 6) {
@@ -32,13 +35,22 @@ func init() {
 			// addresses, seeds without a stored address
 			bare := drawBareWorld(s)
 			bare.install(&c)
+			// the order of the records in a reply (c02_wide.go)
+			order := drawReplyOrder(s)
+			c.Arrange = order.arrange
+			// leftovers of earlier encounters in the peerstore (c02_stale.go)
+			stale := drawStaleWorld(s)
+			stale.install(&c)
 			s.MaxSteps = 800
+			if c.K > c02SmallK {
+				s.MaxSteps = 1600
+			}
 			o := runLookup(s, c)
 			if o != nil {
-				s.Summary["cfg"] = fmt.Sprintf("%v bare=%s", s.Summary["cfg"], bare)
+				s.Summary["cfg"] = fmt.Sprintf("%v bare=%s order=%s stale=%s", s.Summary["cfg"], bare, order, stale)
 			}
 			if o != nil && !s.Failed() {
-				checkC02(s, o)
+				checkC02(s, o, &c02Extras{stale: stale})
 			}
 			if o != nil {
 				o.h.closeAndCensus()
@@ -51,7 +63,12 @@ func init() {
 	mk("terminate-and-contact", "random", 3)
 }
 
-func checkC02(s *sim.Sim, o *lookupObs) {
+// c02Extras: generator state the probes of checkC02 need.
+type c02Extras struct {
+	stale *staleWorld
+}
+
+func checkC02(s *sim.Sim, o *lookupObs, x *c02Extras) {
 	u, K := o.h.U, o.cfg.K
 	res, _ := o.op.Result.([]peer.ID)
 	v, bad := o.view()
@@ -110,9 +127,33 @@ func checkC02(s *sim.Sim, o *lookupObs) {
 		return ok && fs <= st
 	}
 	if !cancelled && v.termIdx >= 0 && v.reason != "cancelled" && v.reason != "stopped" {
+		// "Learned" is a fact of the exchange (c02_stale.go): besides what the
+		// lookup's events call heard, every peer named in the delivered reply of
+		// a responder the lookup reports as queried, unless the configured query
+		// filter rejects it.
+		learned := map[peer.ID]bool{}
+		for p := range v.learned {
+			learned[p] = true
+		}
+		var unreported []peer.ID
+		for _, d := range o.deliveries {
+			if d.Kind != "reply" || d.RPC == nil || string(d.RPC.Req.GetKey()) != o.cfg.Key {
+				continue
+			}
+			if qs, q := v.queried[d.Peer]; !q || qs < d.Step {
+				continue
+			}
+			for _, p := range d.Peers {
+				if p == u.Self.ID || o.cfg.Deny[p] || learned[p] {
+					continue
+				}
+				learned[p] = true
+				unreported = append(unreported, p)
+			}
+		}
 		var alive, writtenOff []peer.ID
 		left := 0
-		for p := range v.learned {
+		for p := range learned {
 			if p == u.Self.ID || failed(p) {
 				continue
 			}
@@ -140,6 +181,9 @@ func checkC02(s *sim.Sim, o *lookupObs) {
 			extra := ""
 			if len(writtenOff) > 0 {
 				extra = fmt.Sprintf("; the lookup wrote off {%s} as unreachable although no dial and no request to them failed", sortedNames(u, writtenOff))
+			}
+			if len(unreported) > 0 {
+				extra += fmt.Sprintf("; replies it received named {%s}, which it never reported as heard", sortedNames(u, unreported))
 			}
 			s.Violate("terminate-early", "lookup ended (%s) although one of the beta=%d nearest non-failed learned peers [%s] has not answered and %d learned peers were still to be asked%s", v.reason, o.cfg.Beta, names(u, top), left, extra)
 		}
@@ -172,6 +216,10 @@ func checkC02(s *sim.Sim, o *lookupObs) {
 	}
 
 	bareProbes(s, o, res)
+	wideProbes(s, o, res)
+	if x != nil {
+		x.stale.probes(s, o, res)
+	}
 
 	// (e) the refresh stamp of the key's bucket moves iff the lookup completed
 	cpl := u.Self.Kad.CPL(o.keyKad)
